@@ -144,24 +144,29 @@ FailOp(ph) ==
 \* reported, i.e. after the end of the test (a step with keep is numbered like an allocation step)
 \* pf: another plugin whose post action runs before the leak plugin's (MockSupportPlugin installed before RunAllTests, for
 \* instance) reports a failure straight into the result - the test has then "already failed" when the leak verdict is taken
-End(keep, pf) ==
+FailedBefore(pf) == failures + (IF pf THEN 1 ELSE 0)
+LeakVerdict(pf) == ~ignore /\ expected # Cardinality(Checking) /\ FailedBefore(pf) = failAtStart
+\* ghost: the finished test in the words of the property statement
+EndRecord(pf) == [t |-> cur, leakFailure |-> LeakVerdict(pf), listed |-> IF LeakVerdict(pf) THEN Ids(Checking) ELSE {},
+                  mine |-> { b.id : b \in { x \in blocks : x.owner = cur } },   \* allocated by this test, still outstanding
+                  expected |-> expected, ignore |-> ignore, ownFailed |-> FailedBefore(pf) # failAtStart]
+\* everything but the ghost history (runs of any length: the verdict of a test depends on nothing but the stamps, the two
+\* flags and the remembered failure count - not on how many tests ran before it, nor on how long a block has been outstanding)
+EndStep(keep, pf) ==
     /\ cur # 0
     /\ LET leaks == Checking
-           fb == failures + (IF pf THEN 1 ELSE 0)
-           lf == ~ignore /\ expected # Cardinality(leaks) /\ fb = failAtStart
+           fb == FailedBefore(pf)
+           lf == LeakVerdict(pf)
            copy == IF keep /\ lf THEN {[id |-> nextId, period |-> "enabled", owner |-> 0]} ELSE {} IN
        /\ failures' = fb + (IF lf THEN 1 ELSE 0)
        /\ out' = [ran |-> TRUE, leakfail |-> lf, listed |-> IF lf THEN Ids(leaks) ELSE {}, own |-> fb - failAtStart,
                   failures |-> fb + (IF lf THEN 1 ELSE 0), kept |-> Cardinality(copy)]
-       /\ hist' = Append(hist, [t |-> cur, leakFailure |-> lf, listed |-> IF lf THEN Ids(leaks) ELSE {},
-                                \* ghost, in the words of the property statement:
-                                mine |-> { b.id : b \in { x \in blocks : x.owner = cur } },   \* allocated by this test, still outstanding
-                                expected |-> expected, ignore |-> ignore, ownFailed |-> fb # failAtStart])
        /\ blocks' = { IF b.period = "checking" THEN [b EXCEPT !.period = "enabled"] ELSE b : b \in blocks } \cup copy
     /\ nextId' = IF keep THEN nextId + 1 ELSE nextId
     /\ period' = "enabled" /\ expected' = 0 /\ ignore' = FALSE
     /\ cur' = 0 /\ phase' = "o" /\ aborted' = {} /\ nops' = 0
     /\ UNCHANGED <<ntests, failAtStart>>
+End(keep, pf) == EndStep(keep, pf) /\ hist' = Append(hist, EndRecord(pf))
 
 \* FinalReport(0): everything still outstanding that was allocated while the plugin was active
 Final ==
